@@ -550,11 +550,17 @@ pub fn small_plans(focus: Focus) -> Vec<Plan> {
 
 /// The family's standard run: scheduled cases into suite "-s", unscheduled into "-u".
 pub fn run_family(ctx: &Ctx, focus: Focus, rule: &str) {
+    run_family_with(ctx, focus, rule, &mut |_| {});
+}
+
+/// `between` runs after phase 1 and before the tracing subscriber is installed (replay: before anything else).
+pub fn run_family_with(ctx: &Ctx, focus: Focus, rule: &str, between: &mut dyn FnMut(&mut Rng)) {
     let mut s = Out::new(ctx, "-s");
     let mut u = Out::new(ctx, "-u");
     let mut rng = Rng::new(ctx.seed ^ (focus as u64) << 40);
     if let Some(p) = &ctx.replay {
-        for line in std::fs::read_to_string(p).unwrap().lines().filter(|l| l.starts_with('(')) {
+        between(&mut rng);
+        for line in std::fs::read_to_string(p).unwrap().lines().filter(|l| l.starts_with('(') && !l.starts_with("(7 ")) {
             if line.starts_with("(0 ") {
                 replay_line(&mut s, line, &mut rng);
             } else {
@@ -579,6 +585,7 @@ pub fn run_family(ctx: &Ctx, focus: Focus, rule: &str) {
     // phase 1: no tracing subscriber (in-band reports possible); phase 2: subscriber installed
     for phase in 0..2 {
         if phase == 1 {
+            between(&mut rng);
             install_subscriber();
         }
         for i in 0..n_sched / 2 {
